@@ -65,9 +65,11 @@ func (oc *OrderCtx) key(v ssa.Value, depth int) string {
 		return oc.key(x.X, depth+1)
 	case *ssa.Call:
 		if b, ok := x.Call.Value.(*ssa.Builtin); ok && (b.Name() == "len" || b.Name() == "cap") && len(x.Call.Args) == 1 {
-			k := b.Name() + "(" + oc.key(x.Call.Args[0], depth+1) + ")"
+			inner := oc.key(x.Call.Args[0], depth+1)
+			k := b.Name() + "(" + inner + ")"
 			oc.uns[k] = true
 			oc.defs[k] = v
+			oc.lenCap(inner)
 			return k
 		}
 		if cal := x.Call.StaticCallee(); cal != nil && cal.Name() == "Len" && strings.HasSuffix(cal.String(), "bytes.Reader).Len") {
@@ -108,6 +110,11 @@ func (oc *OrderCtx) noteUnsigned(k string, t types.Type) {
 	}
 }
 
+func isSignedInt(t types.Type) bool {
+	b, ok := t.Underlying().(*types.Basic)
+	return ok && b.Info()&types.IsInteger != 0 && b.Info()&types.IsUnsigned == 0
+}
+
 func isIntType(t types.Type) bool {
 	b, ok := t.Underlying().(*types.Basic)
 	return ok && b.Info()&types.IsInteger != 0
@@ -123,7 +130,60 @@ func NewOrderCtx(in ssa.Instruction) *OrderCtx {
 	for d := b.Idom(); d != nil; d = d.Idom() {
 		oc.addBranchFacts(d, b)
 	}
+	oc.addSliceFacts(in)
 	return oc
+}
+
+// lenCap records len(k) <= cap(k) once.
+func (oc *OrderCtx) lenCap(inner string) {
+	l, c := "len("+inner+")", "cap("+inner+")"
+	for _, f := range oc.facts {
+		if f.p == l && f.q == c {
+			return
+		}
+	}
+	oc.uns[l], oc.uns[c] = true, true
+	oc.facts = append(oc.facts, ordFact{l, c, 0})
+}
+
+// CapKey is the key of cap(v).
+func (oc *OrderCtx) CapKey(v ssa.Value) string {
+	inner := oc.key(v, 0)
+	oc.lenCap(inner)
+	return "cap(" + inner + ")"
+}
+
+// addSliceFacts: a slice expression x[lo:hi] that was executed on every path to `in` (its block dominates, or it
+// precedes `in` in the same block) did not panic, hence hi <= cap(x).
+func (oc *OrderCtx) addSliceFacts(in ssa.Instruction) {
+	b := in.Block()
+	for _, blk := range oc.fn.Blocks {
+		if blk != b && !blk.Dominates(b) {
+			continue
+		}
+		for _, i2 := range blk.Instrs {
+			if i2 == in {
+				break
+			}
+			sl, ok := i2.(*ssa.Slice)
+			if !ok || sl.High == nil {
+				continue
+			}
+			if _, isSl := sl.X.Type().Underlying().(*types.Slice); !isSl {
+				continue
+			}
+			oc.facts = append(oc.facts, ordFact{oc.key(sl.High, 0), oc.CapKey(sl.X), 0})
+		}
+	}
+}
+
+// ProveLEKey is ProveLE with the right-hand side given by key (e.g. CapKey).
+func (oc *OrderCtx) ProveLEKey(x ssa.Value, ky string, k int64) bool {
+	kx := oc.key(x, 0)
+	if oc.prove(kx, ky, k, 0, map[string]bool{}) {
+		return true
+	}
+	return oc.proveSplit(x, nil, kx, ky, k, oc.at.Block(), 2)
 }
 
 func (oc *OrderCtx) addBranchFacts(d, target *ssa.BasicBlock) {
@@ -226,21 +286,33 @@ func (oc *OrderCtx) ProveLE(x, y ssa.Value, k int64) bool {
 // Sound because every execution reaching b enters through one of these edges; x and y must be defined outside
 // b's phis so that they denote the same value on every edge.
 func (oc *OrderCtx) proveSplit(x, y ssa.Value, kx, ky string, k int64, b *ssa.BasicBlock, depth int) bool {
+	// climb to the nearest merge point above (a chain of single-predecessor blocks is a straight line)
+	for b != nil && len(b.Preds) == 1 {
+		b = b.Preds[0]
+	}
 	if depth == 0 || b == nil || len(b.Preds) < 2 {
 		return false
 	}
-	for _, v := range []ssa.Value{x, y} {
-		if phi, ok := v.(*ssa.Phi); ok && phi.Block() == b {
-			return false
-		}
-	}
-	for _, pr := range b.Preds {
+	for i, pr := range b.Preds {
 		sub := &OrderCtx{at: oc.at, fn: oc.fn, defs: oc.defs, uns: oc.uns, mr: oc.mr}
+		sub.facts = append(sub.facts, oc.facts...) // what dominates the query point holds on every path
 		for d := pr.Idom(); d != nil; d = d.Idom() {
 			sub.addBranchFacts(d, pr)
 		}
 		if ifi, ok := pr.Instrs[len(pr.Instrs)-1].(*ssa.If); ok && pr.Succs[0] != pr.Succs[1] {
 			sub.addCond(ifi.Cond, pr.Succs[0] == b, 0)
+		}
+		// on this edge every phi of b equals its edge operand
+		for _, in := range b.Instrs {
+			phi, ok := in.(*ssa.Phi)
+			if !ok {
+				break
+			}
+			if !isIntType(phi.Type()) {
+				continue
+			}
+			pk, ek := sub.key(phi, 0), sub.key(phi.Edges[i], 0)
+			sub.facts = append(sub.facts, ordFact{pk, ek, 0}, ordFact{ek, pk, 0})
 		}
 		if !sub.prove(kx, ky, k, 0, map[string]bool{}) && !sub.proveSplit(x, y, kx, ky, k, pr, depth-1) {
 			return false
@@ -317,6 +389,15 @@ func (oc *OrderCtx) prove(x, y string, k int64, depth int, seen map[string]bool)
 				}
 			}
 		}
+		if bo, isB := dv.(*ssa.BinOp); isB && isSignedInt(bo.Type()) && bo.Op == token.ADD {
+			// x = a + c, signed machine int (sums of buffer offsets and lengths: overflow is not modelled)
+			if c, isC := constOf(oc.key(bo.Y, 0)); isC && oc.prove(oc.key(bo.X, 0), y, k-c, depth+1, seen) {
+				return true
+			}
+			if c, isC := constOf(oc.key(bo.X, 0)); isC && oc.prove(oc.key(bo.Y, 0), y, k-c, depth+1, seen) {
+				return true
+			}
+		}
 		if bo, isB := dv.(*ssa.BinOp); isB && isIntType(bo.Type()) && bo.Op == token.SUB {
 			// x = a - b with b >= 0 (and no wrap, proven at its own site): x <= a
 			bk := oc.key(bo.Y, 0)
@@ -327,6 +408,25 @@ func (oc *OrderCtx) prove(x, y string, k int64, depth int, seen map[string]bool)
 	}
 	// transitivity through facts
 	for _, f := range oc.facts {
+		// constants in facts live on the zero node:  #n <= q + c  is  #0 <= q + (c-n);  p <= #m + c  is  p <= #0 + (c+m)
+		if n, ok := constOf(f.p); ok && f.p != zeroKey {
+			f = ordFact{zeroKey, f.q, f.c - n}
+		}
+		if m, ok := constOf(f.q); ok && f.q != zeroKey {
+			f = ordFact{f.p, zeroKey, f.c + m}
+		}
+		// a fact about a sum  (a + c0) <= q + c  bounds the summand:  a <= q + (c - c0)   (signed machine ints)
+		if dv, ok := oc.defs[f.p]; ok && f.p != x {
+			if bo, isB := dv.(*ssa.BinOp); isB && bo.Op == token.ADD && isSignedInt(bo.Type()) {
+				for _, pair := range [2][2]ssa.Value{{bo.X, bo.Y}, {bo.Y, bo.X}} {
+					if c0, isC := constOf(oc.key(pair[1], 0)); isC && oc.key(pair[0], 0) == x && f.q != x {
+						if oc.prove(f.q, y, k-(f.c-c0), depth+1, seen) {
+							return true
+						}
+					}
+				}
+			}
+		}
 		if f.p == x && f.q != x {
 			if oc.prove(f.q, y, k-f.c, depth+1, seen) {
 				return true
